@@ -12,7 +12,7 @@ def _pts(rng, n, m, grid=False):
 @scenario("artap.quality_indicator:epsilon_add", bound="<= 4 reference and computed points, 1-3 coordinates, incl. identical and shifted sets")
 def c17_eps(rng, tier):
     from artap.quality_indicator import epsilon_add
-    for k in range(150 if tier == "quick" else 3000):
+    for k in range(150 if tier == "quick" else 1000):
         m = rng.randint(1, 3)
         R = _pts(rng, rng.randint(1, 4), m, grid=(k % 2 == 0))
         if k % 5 == 0:
@@ -29,7 +29,7 @@ def c17_eps(rng, tier):
 @scenario("artap.quality_indicator:gd", bound="<= 4 reference and computed points, 1-3 coordinates")
 def c17_gd(rng, tier):
     from artap.quality_indicator import gd
-    for k in range(100 if tier == "quick" else 2000):
+    for k in range(100 if tier == "quick" else 600):
         m = rng.randint(1, 3)
         R = _pts(rng, rng.randint(1, 4), m, grid=(k % 2 == 0))
         C = [list(rng.choice(R)) for _ in range(rng.randint(1, 3))] if k % 4 == 0 else _pts(rng, rng.randint(1, 4), m, grid=(k % 2 == 0))
@@ -71,7 +71,7 @@ def _witness(src, res):
 
 @scenario("artap.problem:Problem.population", bound="<= 7 recorded designs, unsorted tags from {0,1,2,5}")
 def c17_pop(rng, tier):
-    for k in range(100 if tier == "quick" else 2000):
+    for k in range(100 if tier == "quick" else 600):
         p, r = _results(rng)
         t = rng.choice([0, 1, 2, 3, 5])
         yield {"call": lambda self, population_id: self.population(population_id), "args": {"self": p, "population_id": t},
@@ -81,7 +81,7 @@ def c17_pop(rng, tier):
 
 @scenario("artap.problem:Problem.last_population", bound="as population")
 def c17_last(rng, tier):
-    for k in range(100 if tier == "quick" else 2000):
+    for k in range(100 if tier == "quick" else 600):
         p, r = _results(rng)
         yield {"call": lambda self: self.last_population(), "args": {"self": p},
                "post_extra": lambda a, res: {"gidx": _witness(a["self"].individuals, res),
@@ -91,7 +91,7 @@ def c17_last(rng, tier):
 
 @scenario("artap.results:Results.find_optimum", bound="<= 7 designs, duplicate cost values, minimised and maximised first goal")
 def c17_opt(rng, tier):
-    for k in range(150 if tier == "quick" else 2000):
+    for k in range(150 if tier == "quick" else 600):
         p, r = _results(rng, maximize=(k % 2 == 0))
         name = rng.choice([None, 'f', 'g'])
         yield {"call": lambda self, name: self.find_optimum(name), "args": {"self": r, "name": name},
@@ -101,7 +101,7 @@ def c17_opt(rng, tier):
 
 @scenario("artap.results:Results.goal_on_parameter", bound="<= 7 designs, unsorted listing")
 def c17_gop(rng, tier):
-    for k in range(100 if tier == "quick" else 2000):
+    for k in range(100 if tier == "quick" else 600):
         p, r = _results(rng)
         pid = rng.choice([-1, 0, 1, 5])
         pn, gn = rng.choice(['a', 'b']), rng.choice(['f', 'g'])
@@ -117,7 +117,7 @@ def c17_gop(rng, tier):
 def _listing(method, argnames):
     def gen(rng, tier):
         import builtins
-        for k in range(60 if tier == "quick" else 1500):
+        for k in range(60 if tier == "quick" else 300):
             p, r = _results(rng, maximize=(k % 2 == 0))
             for x in p.individuals:
                 x.features['front_number'] = rng.choice([1, 1, 2, 3])
@@ -155,7 +155,7 @@ for _m, _a in (("goal_on_parameter#sorted", ["parameter_name", "goal_name", "pop
 @scenario("artap.problem:Problem.populations", bound="<= 7 recorded designs with unsorted, interleaved tags")
 def c17_populations(rng, tier):
     import builtins
-    for k in range(60 if tier == "quick" else 1500):
+    for k in range(60 if tier == "quick" else 300):
         p, r = _results(rng)
         yield {"call": lambda self: self.populations(), "args": {"self": p}, "extra": {"builtins_sorted": builtins.sorted, "id": id},
                "label": "#%d tags=%r" % (k, [x.population_id for x in p.individuals])}
